@@ -270,7 +270,9 @@ class SimTree:
         return {"translator": TRANSLATOR + " (Python ast, fail-closed; module under test not imported)",
                 "source": self.info.get("source"), "source_sha1": self.info.get("source_sha1"),
                 "tree_directory": f".scratch/sim/trees/{self.key}",
-                "translated_methods": [{"method": f"{m['class']}.{m['method']}", "lines": m["lines"], "definition": m["definition"]}
+                "translated_methods": [{"method": f"{m['class']}.{m['method']}", "lines": m["lines"], "definition": m["definition"],
+                                        "helpers_translated_at_the_call_site": [dict(helper=i["helper"], lines=i["lines"])
+                                                                                for i in m.get("inlined_helpers", [])]}
                                        for m in ms],
                 "translated_text_sha1": self.info.get("translated_text_sha1"),
                 "translation_failures": self.info.get("failures", []),
